@@ -21,7 +21,7 @@ KMAX = 3
 META = {
     "bounds": {"quick": "arrays 1-D 5, 2-D 2x2; voxel labels 0..3; reference label 0..4, prediction label 0..4 or a list of two; "
                         "no-selection mode on Boolean masks; clDice on 2x2 with an arbitrary skeleton subset",
-               "thorough": "1-D 7, 2-D 2x3, 3-D 2x2x2; same label space; clDice on 2x3 and 2x2x2"},
+               "thorough": "1-D 7, 2-D 2x3, 3-D 2x2x2; same label space; clDice on 2x3 and 1x2x2 (2x2x2 runs into the solver timeout and is outside the claim)"},
     "stubs": ["skimage skeletonize/skeletonize_3d := arbitrary subset of the mask (same subset for the same input)"],
     "assumptions": ["float64 modelled as exact rationals (one correctly rounded division per score; DESIGN 2.3)",
                     "integer/integer score quotients are decided per concrete (numerator, denominator) pair by forking",
@@ -41,7 +41,8 @@ def cases(tier):
         out.append({"name": "vol_3_none_%s" % dt, "shape": (3,), "mode": "none", "what": "vol", "dtype": dt})
         for mode in ("int", "list2"):
             out.append({"name": "vol_3_%s_big_%s" % (mode, dt), "shape": (3,), "mode": mode, "what": "vol", "dtype": dt, "big": True})
-    for shp in ([(2, 2)] if tier == "quick" else [(2, 3), (2, 2, 2)]):
+    # (2x2x2 clDice was tried for the thorough tier: the harmonic-mean obligation over 16 voxels + 16 skeleton choices runs into the solver timeout)
+    for shp in ([(2, 2)] if tier == "quick" else [(2, 3), (1, 2, 2)]):
         out.append({"name": "cldice_%s" % "x".join(map(str, shp)), "shape": shp, "mode": "none", "what": "cl"})
     # clDice called on whole label maps (no selection) hands the caller's own arrays to the kernel: they must come back untouched
     out.append({"name": "cldice_label_maps_untouched", "shape": (2, 2), "mode": "none", "what": "cl", "dtype": "uint8", "maxval": 2, "mut_only": True})
